@@ -253,7 +253,7 @@ package keeper
 //@ func Keeper.VerifyDoubleVotingEvidence
 //@ let A := evidence.VoteA
 //@ let B := evidence.VoteB
-//@ requires evidence.VoteA != nil && evidence.VoteB != nil
+//@ requires [W-evidence-decoded] evidence.VoteA != nil && evidence.VoteB != nil
 //@ let valid := pubkey != nil && pubkey.Address() == A.ValidatorAddress && A.Height == B.Height && A.Round == B.Round && A.Type == B.Type && A.ValidatorAddress == B.ValidatorAddress && !A.BlockID.Equals(B.BlockID) && pubkey.VerifySignature(tmtypes.VoteSignBytes(chainId, A.ToProto()), A.Signature) && pubkey.VerifySignature(tmtypes.VoteSignBytes(chainId, B.ToProto()), B.Signature)
 //@ ensures [sound] result == nil ==> valid
 //@ ensures [complete] valid ==> result == nil
@@ -285,7 +285,7 @@ package keeper
 //@ ensures [success] result == nil ==> E == e3
 
 //@ func Keeper.HandleConsumerDoubleVoting
-//@ requires evidence != nil && evidence.VoteA != nil && evidence.VoteB != nil
+//@ requires [W-evidence-decoded] evidence != nil && evidence.VoteA != nil && evidence.VoteB != nil
 //@ let cl := old(k.GetConsumerClientId(ctx, consumerId))
 //@ let chain := old(k.GetConsumerChainId(ctx, consumerId))
 //@ let prm := old(k.GetInfractionParameters(ctx, consumerId))
@@ -1046,3 +1046,16 @@ package keeper
 //@ ensures [stored-for-this-validator] result == nil ==> k.GetConsumerCommissionRate(ctx, consumerId, providerAddr).1 && k.GetConsumerCommissionRate(ctx, consumerId, providerAddr).0 == commissionRate
 //@ ensures [only-this-record] forall key bytes :: key != types.ConsumerCommissionRateKey(consumerId, providerAddr) ==> S[key] == old(S[key])
 //@ ensures [no-deps] E == old(E) && X == old(X)
+
+// ---------------------------------------------------------------- C07: evidence messages
+
+//@ func msgServer.SubmitConsumerDoubleVoting
+//@ requires msg != nil && k.Keeper != nil && msg.InfractionBlockHeader != nil && msg.InfractionBlockHeader.Header != nil
+//@ precall HandleConsumerDoubleVoting [key-of-the-voter-in-the-infraction-header] $HandleConsumerDoubleVoting.consumerId == msg.ConsumerId && $HandleConsumerDoubleVoting.evidence == evidence && validator != nil && validator == valset.GetByAddress(evidence.VoteA.ValidatorAddress).1 && $HandleConsumerDoubleVoting.pubkey == cryptocodec.FromCmtPubKeyInterface(validator.PubKey).0
+//@ ensures [handled-or-rejected] result1 == nil ==> $HandleConsumerDoubleVoting.called && $HandleConsumerDoubleVoting.ret == nil
+//@ ensures [rejection-propagates] $HandleConsumerDoubleVoting.called && $HandleConsumerDoubleVoting.ret != nil ==> result1 != nil
+
+//@ func msgServer.SubmitConsumerMisbehaviour
+//@ requires msg != nil && k.Keeper != nil && msg.Misbehaviour != nil && msg.Misbehaviour.Header1 != nil && msg.Misbehaviour.Header1.Header != nil
+//@ ensures [handled-or-rejected] result1 == nil ==> $HandleConsumerMisbehaviour.called && $HandleConsumerMisbehaviour.consumerId == msg.ConsumerId && $HandleConsumerMisbehaviour.misbehaviour == *msg.Misbehaviour && $HandleConsumerMisbehaviour.ret == nil
+//@ ensures [rejection-propagates] $HandleConsumerMisbehaviour.called && $HandleConsumerMisbehaviour.ret != nil ==> result1 != nil
